@@ -567,3 +567,22 @@ import glob as _glob
 import importlib as _importlib
 for _f in sorted(_glob.glob(os.path.join(os.path.dirname(os.path.abspath(__file__)), "checks_*.py"))):
     _importlib.import_module(os.path.basename(_f)[:-3])
+
+
+# ---------------------------------------------------------------- C34: triggers (MC_Trg)
+TRG_SETS = ["row", "stmt", "when", "fail"]
+
+
+@prop("C34")
+def check_c34(prop_id, tier, seed):
+    t0 = time.time()
+    depth = {"quick": 3, "thorough": 4}[tier]
+    parts, agg = [], {"exhaustive": True}
+    cfgs = [{"name": "default", "args": []}]
+    for ts in TRG_SETS:
+        scen, stats = vc.gen_scenarios(prop_id, "MC_Trg", "MC_Trg.cfg", ec.ENGINE_DEPS, consts={"MaxDepth": depth, "TrgSet": '"%s"' % ts}, workers=1)
+        _gen_add(agg, stats)
+        parts.append({"name": ts, "scenarios": [{"id": "%s-%s" % (s["id"], ts), "steps": s["steps"]} for s in scen], "configs": cfgs})
+    wd = os.path.join(vc.RUN, "work_%s" % prop_id)
+    verdict, events, _ = ec.run_parts(prop_id, parts, wd)
+    return ec.finish(prop_id, tier, seed, t0, verdict, events, agg, configs=cfgs, extra_cov={"trigger_sets": TRG_SETS})
